@@ -762,7 +762,10 @@ def stage_oracle_paths(rep, rng, n, strings=()):
 PAIR_CORPUS = [('C:/', '..', 2), ('C:/a', '../..', 2), ('C:/a', '..', 2), ('//srv/share/', '..', 2), ('//srv/share/a', '../..', 2),
                ('/', '..', 2), ('/a', '../../b', 2), ('a/b', '..', 0), ('a/b', '../..', 0), ('a/b', '../../..', 0),
                ('a/b', '..\\..\\..', 1), ('', '..', 0), ('', '.', 0), ('', '', 0), ('a', './c:d', 0), ('a', 'c:d', 0),
-               ('a/b', '../b/../../a/b/c', 3), ('a/b', 'c/../../../a/./b/', 5), ('x', '/abs', 0), ('x', 'C:/abs', 0)]
+               ('a/b', '../b/../../a/b/c', 3), ('a/b', 'c/../../../a/./b/', 5), ('x', '/abs', 0), ('x', 'C:/abs', 0),
+               # near-prefix families: the second name extends the first by characters, not by a component
+               ('tools', 'tools-support/libhelper.so', 1), ('a', 'a..b', 1), ('a/b', 'a/bc/d', 1), ('foo', 'foo.txt', 0),
+               ('lib', 'lib64/x', 1), ('data', 'data2/two.txt', 1), ('x.y', 'x.y.z/w', 3), ('d e', 'd e2', 5), ('a', 'ab', 0)]
 
 
 def stage_oracle_pairs(rep, rng, n):
